@@ -6,7 +6,11 @@ package sim
 
 import (
 	"context"
+	"reflect"
 	"time"
+	"unsafe"
+
+	gocache "github.com/patrickmn/go-cache"
 
 	"github.com/awslabs/operatorpkg/reconciler"
 	"github.com/awslabs/operatorpkg/singleton"
@@ -35,9 +39,49 @@ import (
 
 // keepAlive pins objects that own a go-cache: its finalizer sends on a bubble channel, which
 // is fatal when the GC runs it after the bubble ended (DESIGN section 9).
-var keepAlive []interface{}
+var keepAlive []*gocache.Cache
 
-func KeepAlive(x ...interface{}) { keepAlive = append(keepAlive, x...) }
+// KeepAlive pins only the go-cache instances found inside the given objects (unexported fields,
+// reached by reflection), so that everything else a run allocated can be collected after the run.
+func KeepAlive(x ...interface{}) {
+	for _, o := range x {
+		pinCaches(reflect.ValueOf(o), 0)
+	}
+}
+
+var gocacheType = reflect.TypeOf((*gocache.Cache)(nil))
+
+func pinCaches(v reflect.Value, depth int) {
+	if depth > 4 || !v.IsValid() {
+		return
+	}
+	switch v.Kind() {
+	case reflect.Ptr, reflect.Interface:
+		if v.IsNil() {
+			return
+		}
+		if v.Type() == gocacheType {
+			if v.CanInterface() {
+				keepAlive = append(keepAlive, v.Interface().(*gocache.Cache))
+			}
+			return
+		}
+		pinCaches(v.Elem(), depth+1)
+	case reflect.Struct:
+		for i := 0; i < v.NumField(); i++ {
+			f := v.Field(i)
+			if !f.CanAddr() {
+				continue
+			}
+			// make unexported fields readable
+			f = reflect.NewAt(f.Type(), unsafe.Pointer(f.UnsafeAddr())).Elem()
+			switch f.Kind() {
+			case reflect.Ptr, reflect.Interface, reflect.Struct:
+				pinCaches(f, depth+1)
+			}
+		}
+	}
+}
 
 type RecEvent struct {
 	Step int
@@ -119,6 +163,7 @@ func (e *Env) resetManager() {
 	old := s.Mgr
 	s.Mgr = NewManager(s)
 	s.Mgr.onTaskStart = old.onTaskStart
+	s.Mgr.OnDeliver = old.OnDeliver
 	e.Parts = map[string]interface{}{}
 }
 
